@@ -44,6 +44,10 @@ CLAIMED = {
    technique="deterministic simulation: client / signer / verifier nodes with reference verifiers (crypto/rsa, big-exponent RFC 8017 model); blinded messages, blind signatures and signatures cross a faulty transport; split entropy streams fix salt and preparation while the blind varies; entropy errors; reuse of finalisation state",
    text="Blind, blind-sign, finalise over fixture keys (1024..4096 bits, 8k+1-bit moduli, safe primes) for the four RSABSSA variants and the partially blind variant: the final signature verifies under the library, under crypto/rsa.VerifyPSS and under an RFC 8017 reference with the derived exponent; equal salt and preparation randomness with different blinds give identical signatures; altered / trivial / mis-sized blind signatures make Finalize fail (also after retransmission and after a prior success); the signer refuses inputs of wrong length or not below the modulus; on every delivered (message, signature) pair, corrupted or not, the library verifier agrees with the reference.",
    note="pssref is validated against crypto/rsa at start-up; the derived exponent follows the draft's DerivePublicKey text."),
+ "C19": dict(engine="netsim", level="exploration", ref="DESIGN.md §3 C19",
+   technique="deterministic simulation: clients, 2..255 aggregator nodes and a collector; every protocol message is marshalled and re-parsed on its link; per-link corruption / replacement / truncation, a nonce altered for one aggregator, malicious share perturbation, report loss, aggregator restart between preparation rounds; plain-integer aggregate as reference",
+   text="For Count, Sum, SumVec, Histogram and MultihotCountVec with generated parameters and 2..16 (thorough: up to 255) aggregators: intact reports are accepted by every aggregator and the unsharded aggregate equals the plain aggregate of exactly the accepted reports (also when unsharded twice and when an aggregator restarts from its marshalled preparation state); a report hit by one fault (input share flip/truncate/swap, public share flip, per-link nonce change, prep share flip/duplication, prep message flip, malicious perturbation of a share) is rejected during preparation and contributes nothing; all messages round-trip through marshalling; constructors return an error, without panicking, for fewer than two aggregators, zero chunk lengths and a Sum bound that does not fit the field.",
+   note="Rejection is asserted only for faults the VDAF guarantees to detect (see assumptions in the evidence); FLP soundness error ignored."),
 }
 
 NA = {
